@@ -118,7 +118,13 @@ def run(tier):
         logf = env["PAGER_LOG"]
         if os.path.exists(logf):
             os.unlink(logf)
-        r = core.run_delta(args, stdin, env=env, prefix_args=(), timeout=30)
+        # (the pager inherits delta's stdout, so the end of the captured output says nothing about when delta itself
+        # exited: a shell notes that moment in the pager's log)
+        if sc["out"] == "pager":
+            r = core.run_delta(args, stdin, env=env, binary="/bin/sh", timeout=30,
+                               prefix_args=("-c", '"$@"; rc=$?; echo delta-exit >> "$PAGER_LOG"; exit $rc', "sh", core.DELTA))
+        else:
+            r = core.run_delta(args, stdin, env=env, prefix_args=(), timeout=30)
         plog = open(logf).read().splitlines() if os.path.exists(logf) else []
         if os.path.exists(logf):
             os.unlink(logf)
@@ -147,7 +153,7 @@ def run(tier):
         events.append({"run": i, "sc": sc, "code": 999 if r.timed_out else r.code, "stderr": 1 if r.err.strip() else 0,
                        "hit": sc["quit"] > 0 and ref_writes >= sc["quit"], "pager": pager, "rflag": ("--RAW-CONTROL-CHARS" in pargs or "-R" in pargs.split("\x1f")),
                        "got": gbytes, "sent": len(ref.out), "gotHash": ghash, "sentHash": fnv(ref.out),
-                       "pagerDoneFirst": "done" in plog})
+                       "pagerDoneFirst": "done" in plog and "delta-exit" in plog and plog.index("done") < plog.index("delta-exit")})
     failed, tr = tlc.validate_trace("Trace_Pager", events)
     log(f"[{PID}] {len(events)} scenario runs judged by TLC (Trace_Pager), {len(failed)} rejected")
     for f in failed:
